@@ -664,3 +664,119 @@ def k_take_step():
     I = Interp(funcs, stubs={"try_range_into_int": stub_try_range_into_int}, unwind=3, timeout_s=120)
     exits = run_slice(I, fn, start_bb, {cur_loc: cur, item_loc: some(r)}, loop_head, pre=[ccs, cce] + rc)
     return I, exits, cur_loc
+
+
+# ---------------------------------------------------------------- K-id: IdGenerator::skip / gen (ids read from an RQ document)
+def k_id():
+    funcs = load(r"^id_gen::<impl at [^>]*>::(skip|gen)$")
+    skip = [f for f in funcs if f.endswith("::skip") and "id_gen" in f]
+    gen = [f for f in funcs if f.endswith("::gen") and funcs[f].args and "IdGenerator" in funcs[f].args[0][1]]
+    if len(skip) != 1 or len(gen) != 1:
+        raise core.EngineError(f"K-id: skip/gen not found: {skip} {gen}")
+    nxt, idv = z3.BitVec("next_id", 64), z3.BitVec("loaded_id", 64)
+    out = {}
+    for label, fname, args in (("skip", skip[0], 2), ("gen", gen[0], 1)):
+        I = Interp(funcs, unwind=3, timeout_s=60)
+        st = State()
+        st.heap.append(SAgg("struct", "IdGenerator", {0: SInt(nxt, 64, False), 1: SUnit()}))
+        a = [SRef(-1, ("cell", 0))] + ([SInt(idv, 64, False)] if args == 2 else [])
+        st.frames.append(I.new_frame(fname, a))
+        I.deadline = time.time() + 60
+        I.exits = []
+        I.explore(st)
+        out[label] = (I, I.exits)
+    return out, nxt, idv
+
+
+# ---------------------------------------------------------------- K-fold: static_eval_rq_operator
+def k_fold():
+    register_enum("ExprKind", enum_from_source(os.path.join(core.REPO, "prqlc/prqlc/src/ir/pl/expr.rs"), "ExprKind"))
+    register_enum("Literal", enum_from_source(os.path.join(core.REPO, "prqlc/prqlc-parser/src/lexer/lr.rs"), "Literal"))
+    funcs = load(r"^static_eval_rq_operator$|>::into_rq_operator$")
+    irq = [f for f in funcs if f.endswith("::into_rq_operator")]
+    if len(irq) != 1:
+        raise core.EngineError(f"K-fold: into_rq_operator body not found: {irq}")
+    EK, LV = VARIANTS["ExprKind"], VARIANTS["Literal"]
+    name = z3.String("op_name")
+    str_eq = z3.Bool("other_literals_equal")
+
+    def lit(tag):
+        d = z3.BitVec(f"{tag}_lit", 64)
+        pay = {LV.index("Integer"): {0: SInt(z3.BitVec(f"{tag}_int", 64), 64, True)}, LV.index("Boolean"): {0: SBool(z3.Bool(f"{tag}_bool"))},
+               LV.index("Float"): {0: SOpaque("f64", False)}, LV.index("String"): {0: SOpaque("string", False)}}
+        return SEnum("Literal", d, pay), z3.Or(*[d == LV.index(v) for v in ("Null", "Integer", "Boolean", "String")])
+
+    def arg(tag):
+        l, c = lit(tag)
+        kd = z3.BitVec(f"{tag}_kind", 64)
+        kind = SEnum("ExprKind", kd, {EK.index("Literal"): {0: l}, EK.index("Ident"): {0: SOpaque("ident", False)}})
+        e = SAgg("struct", "Expr", {0: kind, "kind": kind, 1: SOpaque(f"{tag}_rest", False)})
+        return e, [c, z3.Or(kd == EK.index("Literal"), kd == EK.index("Ident"))]
+    a0, c0 = arg("a0")
+    a1, c1 = arg("a1")
+    rq = EK.index("RqOperator")
+    kind = SEnum("ExprKind", rq, {rq: {0: SStr(name), 1: SVec([a0, a1]), "name": SStr(name), "args": SVec([a0, a1])}})
+    expr = SAgg("struct", "Expr", {0: kind, "kind": kind, 1: SOpaque("rest", False)})
+
+    def stub_expr_new(I, st, a):
+        v = a[0]
+        k = SEnum("ExprKind", EK.index("Literal"), {EK.index("Literal"): {0: v}})
+        return SAgg("struct", "Expr", {0: k, "kind": k, 1: SOpaque("fresh", False)})
+
+    def stub_index(I, st, a):
+        r, i = a
+        n = z3.simplify(i.t).as_long()
+        return SRef(r.depth, ("cindex", r.place, n))
+
+    def stub_remove(I, st, a):
+        r, i = a
+        from models import deref
+        v = deref(I, st, r)
+        n = z3.simplify(i.t).as_long()
+        items = list(v.items)
+        x = items.pop(n)
+        I.write(st, r.depth, r.place, SVec(items))
+        return x
+
+    def stub_lit_as_ref(I, st, a):
+        from models import deref
+        l = deref(I, st, a[0])
+        d = z3.BitVecVal(l.disc, 64) if isinstance(l.disc, int) else l.disc
+        t = z3.StringVal("?")
+        for i_, nm in enumerate(LV):
+            t = z3.If(d == i_, z3.StringVal(nm), t)
+        return SStr(t)
+
+    def lit_eq(I, st, a, negate):
+        from models import deref, is_variant
+        l, r = deref(I, st, a[0]), deref(I, st, a[1])
+        dl = z3.BitVecVal(l.disc, 64) if isinstance(l.disc, int) else l.disc
+        dr = z3.BitVecVal(r.disc, 64) if isinstance(r.disc, int) else r.disc
+        li, ri = l.pay[LV.index("Integer")][0].t, r.pay[LV.index("Integer")][0].t
+        lb, rb = l.pay[LV.index("Boolean")][0].t, r.pay[LV.index("Boolean")][0].t
+        same = z3.And(dl == dr, z3.If(dl == LV.index("Null"), z3.BoolVal(True), z3.If(dl == LV.index("Integer"), li == ri,
+                                     z3.If(dl == LV.index("Boolean"), lb == rb, str_eq))))
+        return SBool(z3.Not(same) if negate else same)
+
+    def stub_neg(I, st, a):
+        from models import deref
+        x = deref(I, st, a[0])
+        mn = z3.BitVecVal(-(1 << 63), 64)
+        return [(x.t == mn, ("panic", "attempt to negate with overflow")), (x.t != mn, SInt(-x.t, 64, True))]
+
+    def stub_not(I, st, a):
+        from models import deref
+        return SBool(z3.Not(deref(I, st, a[0]).t))
+    stubs = {"extra::<impl pl::expr::Expr>::new::<prqlc_parser::lexer::lr::Literal>": stub_expr_new,
+             "<Vec<pl::expr::Expr> as std::ops::Index<usize>>::index": stub_index,
+             "Vec::<pl::expr::Expr>::remove": stub_remove,
+             "<prqlc_parser::lexer::lr::Literal as AsRef<str>>::as_ref": stub_lit_as_ref,
+             "<&prqlc_parser::lexer::lr::Literal as PartialEq>::eq": lambda I, st, a: lit_eq(I, st, a, False),
+             "<&prqlc_parser::lexer::lr::Literal as PartialEq>::ne": lambda I, st, a: lit_eq(I, st, a, True),
+             "<&i64 as std::ops::Neg>::neg": stub_neg, "<&f64 as std::ops::Neg>::neg": lambda I, st, a: SOpaque("f64", False),
+             "<&bool as std::ops::Not>::not": stub_not,
+             "std::string::String::as_str": lambda I, st, a: a[0],
+             "pl::expr::ExprKind::into_rq_operator": lambda I, st, a: ("call", irq[0], a)}
+    I = Interp(funcs, stubs=stubs, unwind=4, timeout_s=120)
+    exits = I.run("static_eval_rq_operator", [expr], c0 + c1)
+    return I, exits, dict(name=name, str_eq=str_eq, a0=a0, a1=a1)
